@@ -108,6 +108,10 @@ func runMuxStruct(c *mon.Ctx, prop string) {
 			}
 			c.Count("histories_with_a_pmt_of_65536_bytes")
 		}
+		if i%16 == 7 {
+			ops = oversizeReaddScenario(r)
+			c.Count("histories_readding_a_pid_after_an_addition_that_cannot_be_announced")
+		}
 		if i%16 == 2 {
 			// a rejected call, repaired on the same adaptation field object, and repeated
 			ops = retryScenario(r)
@@ -240,6 +244,24 @@ func runMuxStruct(c *mon.Ctx, prop string) {
 					}
 					p.AdaptationField = a
 					c.Count("writepacket_field_values_wider_than_their_fields")
+				}
+				if shape/2 == 0 && shape == 1 && pl > 0 && pl < 150 {
+					// a packet object re-armed without payload (a PCR-only packet after a data packet) whose Payload slice was left
+					// in place: HasPayload says there is none. Whatever WritePacket makes of the left-over bytes, what reaches the
+					// writer is whole packets and the count it returns (conformance of adaptation-only packets that do not fill
+					// the packet is the caller's business: WritePacket documents that it pads them)
+					p.Header.HasPayload, p.Header.HasAdaptationField = false, true
+					p.AdaptationField = &astits.PacketAdaptationField{HasPCR: true, PCR: &astits.ClockReference{Base: 90000 * pl, Extension: 1}, StuffingLength: r.IntN(40)}
+					hr := runHistory([]HOp{{Kind: "packet", Pkt: p}, {Kind: "tables"}}, 40)
+					c.Count("writepacket_left_over_payload_cases")
+					for k, cl := range hr.Calls {
+						if cl.Panic != "" {
+							c.Violate("C04/panic:"+cl.Op.Kind, "grid", pl, cl.Panic, nil)
+						} else if cl.End%188 != 0 || cl.N != cl.End-cl.Start || (cl.End > cl.Start && hr.Out[cl.Start] != 0x47) {
+							c.Violate("C04/partial-packet-in-output:packet:left-over-payload", "grid", pl, fmt.Sprintf("call %d (%s): returned n=%d err=%v, %d bytes delivered, output length %d", k, cl.Op.Kind, cl.N, cl.Err, cl.End-cl.Start, cl.End), map[string]any{"left_over_payload_bytes": pl})
+						}
+					}
+					continue
 				}
 				if !p.Header.HasPayload {
 					// self-consistent adaptation-only packet: the field fills the packet (oversize shapes stay as they are)
